@@ -2,6 +2,7 @@ package runtime
 
 import (
 	"fmt"
+	"google.golang.org/protobuf/encoding/protowire"
 	"google.golang.org/protobuf/proto"
 	"google.golang.org/protobuf/runtime/protoiface"
 	"io"
@@ -143,7 +144,13 @@ func MarshalInputToOptions(input protoiface.MarshalInput) proto.MarshalOptions {
 }
 
 func UnmarshalInputToOptions(input protoiface.UnmarshalInput) proto.UnmarshalOptions {
+	depth := input.Depth
+	if depth == 0 {
+		// callers that invoke the method directly and leave Depth unset
+		depth = protowire.DefaultRecursionLimit
+	}
 	return proto.UnmarshalOptions{
+		RecursionLimit:    depth - 1, // nesting budget left for the messages inside this one
 		NoUnkeyedLiterals: input.NoUnkeyedLiterals,
 		Merge:             true, // nested messages are merged into, never reset: repeated occurrences of a singular message field must merge
 		AllowPartial:      true, // defaults to true as the required fields check is done after the unmarshalling
@@ -156,4 +163,5 @@ var (
 	ErrInvalidLength        = fmt.Errorf("proto: negative length found during unmarshaling")
 	ErrIntOverflow          = fmt.Errorf("proto: integer overflow")
 	ErrUnexpectedEndOfGroup = fmt.Errorf("proto: unexpected end of group")
+	ErrRecursionDepth       = fmt.Errorf("proto: exceeded maximum recursion depth")
 )
